@@ -164,6 +164,18 @@ def const_local_defs(unit, fn):
             ty = unit.ty(v.get("t")) or ""
             if "const" in ty or v["id"] not in written:
                 defs[v["id"]] = norm(unit, v["init"], defs)
+        elif v.get("k") == "var" and v.get("init") is not None and "id" in v and v.get("ref") in ("lref", "rref"):
+            # a reference local names an lvalue: its BINDING never changes, whatever is written through it. It stands for its
+            # initialiser as long as that expression keeps denoting the same object: its variables are references
+            # themselves (never re-bound), `this`, or never written
+            stable = True
+            for m in F.walk(v["init"], into_lambdas=False):
+                if m.get("k") == "ref" and m.get("dk") in ("local", "param") and m.get("ref") not in ("lref", "rref") and m.get("id") in written:
+                    stable = False
+                if m.get("k") in ("lambda", "assign", "compound_assign") or (m.get("k") == "unop" and m.get("op") in ("++", "--")):
+                    stable = False
+            if stable:
+                defs[v["id"]] = norm(unit, v["init"], defs)
     fn["_cdefs"] = defs
     return defs
 
@@ -228,6 +240,54 @@ def walk_through_locals(unit, fn, node, depth=0):
                 for x in go(inits[m["id"]], d + 1):
                     yield x
     return go(node, depth)
+
+
+def subst_refs(n, mapping):
+    """copy of the facts AST `n` in which every reference to a declaration in `mapping` (decl id -> node) is replaced by
+    that node; keys starting with '_' (indices added by the loader) are shared, not copied"""
+    if isinstance(n, list):
+        return [subst_refs(x, mapping) for x in n]
+    if not isinstance(n, dict):
+        return n
+    if n.get("k") == "ref" and n.get("id") in mapping:
+        return mapping[n["id"]]
+    return {k: (v if k.startswith("_") else subst_refs(v, mapping)) for (k, v) in n.items()}
+
+
+def inline_local_lambda_calls(unit, stmts):
+    """the statement list with (a) declarations of local lambdas removed and (b) every STATEMENT that is a call of such a
+    lambda replaced by the lambda's body, parameters replaced by the argument expressions. Only non-generic lambdas
+    (one call operator) whose body does not return a value are inlined; anything else is left as it is. Lets a
+    statement-shaped rule see `auto const f{[](L &l, P p){ for (auto &c : l) c.x = p; }}; f(a, b);` as the loop it stands for."""
+    lams = {}
+    for st in stmts:
+        if st is not None and st.get("k") == "decl":
+            for v in st.get("ch", []):
+                li = unwrap(unit, v.get("init")) if v.get("k") == "var" and v.get("init") is not None else None
+                if li is not None and li.get("k") == "lambda" and len(li.get("ops", [])) == 1:
+                    lams[v["id"]] = li
+    if not lams:
+        return list(stmts)
+    from . import facts as F
+    out = []
+    for st in stmts:
+        if st is None:
+            continue
+        c0 = unwrap(unit, st) if st.get("k") == "call" else None
+        r0 = unwrap(unit, c0.get("recv")) if c0 is not None and c0.get("recv") is not None else None
+        if c0 is not None and c0.get("opcall") == "()" and r0 is not None and r0.get("k") == "ref" and r0.get("id") in lams:
+            op = lams[r0["id"]]["ops"][0]
+            ps, args = op.get("params", []), c0.get("args", [])
+            body = op.get("body") or {}
+            has_ret = any(x.get("k") == "return" and x.get("e") is not None for x in F.walk(body, into_lambdas=False))
+            if len(ps) == len(args) and not has_ret:
+                b = subst_refs(body, {p["id"]: a for (p, a) in zip(ps, args)})
+                out.extend(b.get("ch", []) if b.get("k") == "compound" else [b])
+                continue
+        if st.get("k") == "decl" and st.get("ch") and all(v.get("k") == "var" and v.get("id") in lams for v in st.get("ch", [])):
+            continue
+        out.append(st)
+    return out
 
 
 def snorm(unit, fn, n):
